@@ -32,7 +32,8 @@ def amf_cfg(cfg, strict=False):
                 **({"first_amf_id": cfg["first_amf_id"]} if "first_amf_id" in cfg else {}),
                 **({"flow_desc_len": cfg["flow_desc_len"]} if "flow_desc_len" in cfg else {}),
                 **({"exact16k": cfg["exact16k"]} if "exact16k" in cfg else {}),
-                **({"other_plmn_first": cfg["other_plmn_first"]} if "other_plmn_first" in cfg else {}))
+                **({"other_plmn_first": cfg["other_plmn_first"]} if "other_plmn_first" in cfg else {}),
+                **({"snssai_shift": cfg["snssai_shift"]} if "snssai_shift" in cfg else {}))
 
 
 GARBAGE = b"\xff\xfe\xfd"
